@@ -2,3 +2,4 @@
 pub mod states;
 pub mod iana;
 pub mod ciphers;
+pub mod wire;
